@@ -30,6 +30,8 @@ Cigs == UNION {[1..m -> Op1] : m \in 1..MaxOps}
 
 -----------------------------------------------------------------------------
 (* text *)
+RECURSIVE Join(_, _)
+Join(s, sep) == IF Len(s) = 0 THEN "" ELSE IF Len(s) = 1 THEN s[1] ELSE s[1] \o sep \o Join(Tail(s), sep)
 RECURSIVE CigText(_)
 CigText(cg) == IF cg = <<>> THEN "" ELSE ToString(Head(cg).n) \o Head(cg).c \o CigText(Tail(cg))
 OvText(cg, star) == IF star THEN "*" ELSE CigText(cg)
@@ -52,10 +54,11 @@ ELine(g, id) ==
 
 -----------------------------------------------------------------------------
 (* edge cases *)
+VARIABLE c
 SegLines1(self, lf, lt) == IF self THEN <<S1Line("A", lf, TRUE)>> ELSE <<S1Line("A", lf, TRUE), S1Line("B", lt, FALSE)>>
 SegLines2(self, l1, l2) == IF self THEN <<S2Line("A", l1, TRUE)>> ELSE <<S2Line("A", l1, TRUE), S2Line("B", l2, FALSE)>>
 
-LCases ==
+LCases(dummy) ==
   {[k |-> "L", ver |-> "gfa1", lf |-> lf, lt |-> lt,
     x |-> G1("L", "A", fo, IF self THEN "A" ELSE "B", to, ov, FALSE, 0),
     lines |-> SegLines1(self, lf, lt) \o <<G1Line(G1("L", "A", fo, IF self THEN "A" ELSE "B", to, ov, FALSE, 0), id)>>] :
@@ -65,7 +68,7 @@ LCases ==
         /\ RefLen(t[6]) <= t[1] /\ QueryLen(t[6]) <= t[2]}}
 
 \* containments: the CIGAR spans the whole contained segment, every offset
-CCases ==
+CCases(dummy) ==
   {[k |-> "C", ver |-> "gfa1", lf |-> lf, lt |-> lt,
     x |-> G1("C", "A", fo, IF self THEN "A" ELSE "B", to, ov, FALSE, pos),
     lines |-> SegLines1(self, lf, lt) \o <<G1Line(G1("C", "A", fo, IF self THEN "A" ELSE "B", to, ov, FALSE, pos), id)>>] :
@@ -83,13 +86,12 @@ ECase(l1, l2, self, o1, o2, i1, i2, al, id) ==
   LET g == Geo("A", o1, IF self THEN "A" ELSE "B", o2, N8(i1[1], i1[2], l1, i2[1], i2[2], l2), al[1], al[2]) IN
   [k |-> "E", ver |-> "gfa2", lf |-> l1, lt |-> l2, x |-> g,
    lines |-> SegLines2(self, l1, l2) \o <<ELine(g, id)>>]
-ECases ==
-  UNION {UNION {UNION {
-     {ECase(t[1], t[2], t[3], o[1], o[2], i1, i2, al, id) :
-        al \in AlsFor(i1, i2), o \in Ori \X Ori,
-        id \in (IF t[1] <= Unnamed /\ t[2] <= Unnamed THEN {"", "e1"} ELSE {"e1"})}
-     : i2 \in Ivs(t[2])} : i1 \in Ivs(t[1])}
-     : t \in {u \in Shard \X Lens \X BOOLEAN : u[3] => u[1] = u[2]}}
+InitE ==
+  \E t \in {u \in Shard \X Lens \X BOOLEAN : u[3] => u[1] = u[2]} :
+    \E i1 \in Ivs(t[1]), i2 \in Ivs(t[2]) :
+      \E al \in AlsFor(i1, i2), o1 \in Ori, o2 \in Ori,
+         id \in (IF t[1] <= Unnamed /\ t[2] <= Unnamed THEN {"", "e1"} ELSE {"e1"}) :
+        c = ECase(t[1], t[2], t[3], o1, o2, i1, i2, al, id)
 
 -----------------------------------------------------------------------------
 (* path documents: segments A (4, sequence) B (5) C (6); a walk shape, per step
@@ -99,7 +101,7 @@ PLen(id) == CASE id = "A" -> 4 [] id = "B" -> 5 [] OTHER -> 6
 W(s) == [i \in DOMAIN s |-> Ors(s[i][1], s[i][2])]
 Shapes ==
   {[w |-> W(<<<<"A", o>>>>), c |-> FALSE] : o \in Ori}
-  \cup {[w |-> W(<<<<"A", o1>>, <<"B", o2>>>>), c |-> c] : o1 \in Ori, o2 \in Ori, c \in BOOLEAN}
+  \cup {[w |-> W(<<<<"A", o1>>, <<"B", o2>>>>), c |-> cc] : o1 \in Ori, o2 \in Ori, cc \in BOOLEAN}
   \cup {[w |-> W(<<<<"A", o1>>, <<"B", o2>>, <<"C", o3>>>>), c |-> FALSE] : o1 \in Ori, o2 \in Ori, o3 \in Ori}
   \cup {[w |-> W(<<<<"A", "+">>, <<"B", "+">>, <<"C", "+">>>>), c |-> TRUE],
         [w |-> W(<<<<"A", "-">>, <<"B", "+">>, <<"C", "-">>>>), c |-> TRUE],
@@ -130,11 +132,9 @@ PSegLines(sh, v) ==
   LET names == SelectSeq(<<"A", "B", "C">>, LAMBDA n : n \in SegsUsed(sh)) IN
   [i \in DOMAIN names |-> IF v = "gfa1" THEN S1Line(names[i], PLen(names[i]), names[i] = "A")
                           ELSE S2Line(names[i], PLen(names[i]), names[i] = "A")]
-RECURSIVE Join(_, _)
-Join(s, sep) == IF Len(s) = 0 THEN "" ELSE IF Len(s) = 1 THEN s[1] ELSE s[1] \o sep \o Join(Tail(s), sep)
 EName(k, named) == IF named THEN "l" \o ToString(k) ELSE ""
 
-PCases ==
+PCases(dummy) ==
   {[k |-> "P", ver |-> "gfa1", lf |-> 0, lt |-> 0, x |-> [sh |-> sh, r |-> r, fv |-> fv],
     lines |-> PSegLines(sh, "gfa1")
        \o [k \in 1..NSteps(sh) |-> G1Line(Stored1(sh, k, r, fv), EName(k, named))]
@@ -160,7 +160,7 @@ OItems(sh, r, fv, explicit) ==
       segtxt == [i \in DOMAIN closed |-> closed[i].id \o closed[i].o]
       refs == [k \in 1..NSteps(sh) |-> "l" \o ToString(k) \o Stored2(sh, k, r, fv).s]
   IN IF explicit THEN PathToOrdered(segtxt, refs) ELSE segtxt
-OCases ==
+OCases(dummy) ==
   {[k |-> "O", ver |-> "gfa2", lf |-> 0, lt |-> 0, x |-> [sh |-> sh, r |-> r, fv |-> fv],
     lines |-> PSegLines(sh, "gfa2")
        \o [k \in 1..NSteps(sh) |-> ELine(Stored2(sh, k, r, fv).g, IF explicit \/ named THEN "l" \o ToString(k) ELSE "")]
@@ -207,20 +207,22 @@ XDocs == <<
      <<"L", "A", "+", "B", "+", "2M", "ID:Z:2">>, <<"L", "B", "+", "3", "-", "1M1D1M">>,
      <<"L", "3", "+", "A", "+", "1M">> >>]
 >>
-XCases == {[k |-> "X", ver |-> XDocs[i].ver, lf |-> 0, lt |-> 0, x |-> i, lines |-> XDocs[i].lines] : i \in DOMAIN XDocs}
+XCases(dummy) == {[k |-> "X", ver |-> XDocs[i].ver, lf |-> 0, lt |-> 0, x |-> i, lines |-> XDocs[i].lines] : i \in DOMAIN XDocs}
 
 -----------------------------------------------------------------------------
-VARIABLE c
-Init == \/ "L" \in Kinds /\ c \in LCases
-        \/ "C" \in Kinds /\ c \in CCases
-        \/ "E" \in Kinds /\ c \in ECases
-        \/ "P" \in Kinds /\ c \in PCases
-        \/ "O" \in Kinds /\ c \in OCases
-        \/ "X" \in Kinds /\ c \in XCases
+Init == \/ "L" \in Kinds /\ c \in LCases(0)
+        \/ "C" \in Kinds /\ c \in CCases(0)
+        \/ "E" \in Kinds /\ InitE
+        \/ "P" \in Kinds /\ c \in PCases(0)
+        \/ "O" \in Kinds /\ c \in OCases(0)
+        \/ "X" \in Kinds /\ c \in XCases(0)
 Next == FALSE /\ UNCHANGED c
 Spec == Init /\ [][Next]_c
 
-Emit == PrintT(<<"CASE", c.k, c.ver, c.lines>>)
+\* one printed line per case: fields joined with "|", lines with ";" (neither
+\* occurs inside a field of any enumerated document)
+DocText(ls) == Join([i \in DOMAIN ls |-> Join(ls[i], "|")], ";")
+Emit == PrintT(<<"CASE", c.k, c.ver, DocText(c.lines)>>)
 
 -----------------------------------------------------------------------------
 (* laws of the specification *)
